@@ -191,6 +191,8 @@ def check(ctx, rule, name):
         # no longer made by the function (engine.facts): a re-arrangement (loop <-> adaptor, combinators, flags, helper
         # boundaries) loses nothing; a removed / weakened check, a changed operand or a dropped effect does.
         from . import facts as _facts
+        for _d, _l in (ent.get('abbr') or {}).items():
+            _facts.ABBR.setdefault(_d, frozenset(_l))
         lostf, nr, na = _facts.lost(ent['exits'], actual)
         byp = _facts.bypassed(ent['exits'], actual)
         ctx.note('%s: %d of %d reviewed entries differ in shape; %d of %d reviewed facts lost' % (name, len(strict_fail), len(res), len(lostf), nr))
@@ -211,6 +213,14 @@ def check(ctx, rule, name):
             n += 1
             ctx.ob(rule, name, 'returned value is computed as reviewed: %s' % short(lab, 200), False,
                    problem='a successful / value-returning exit computes its result differently from every reviewed one (alternative operands, other arguments)')
+        seen_u = set()
+        for lab, f in _facts.untriggered(ent['exits'], actual):
+            if (lab, f) in seen_u:
+                continue
+            seen_u.add((lab, f))
+            n += 1
+            ctx.ob(rule, name, 'rejection %s is still triggered by the reviewed %s' % (short(lab, 80), short(_facts.render(f), 200)), False,
+                   problem='no rejecting exit with this result is triggered by the reviewed decision any more (the test was removed, weakened or now guards something else)')
         seen_b = set()
         for g, f, lab in byp:
             key = (g, f)
